@@ -231,14 +231,24 @@ Definition at_end (s : string) : bool :=
   | _ => false
   end.
 
+(* all tests on characters are written with Ascii.eqb (not literal patterns) so
+   that they reduce on symbolic strings *)
+Definition uncons (c : ascii) (s : string) : option string :=
+  match s with
+  | String a r => if Ascii.eqb a c then Some r else None
+  | EmptyString => None
+  end.
+
 (* optional group [digits, c] -- deterministic: digits cannot be the designator, and
    nothing that follows in the patterns can start with digits followed by c *)
 Definition take_unit (c : ascii) (s : string) : option string * string :=
   let (ds, r) := span_digits s in
-  match ds, r with
-  | String _ _, String a r' => if Ascii.eqb a c then (Some ds, r') else (None, s)
-  | _, _ => (None, s)
-  end.
+  if str_nonempty ds then
+    match uncons c r with
+    | Some r' => (Some ds, r')
+    | None => (None, s)
+    end
+  else (None, s).
 
 Definition match_date (s : string) : option string * option string * option string * string :=
   let (y, r1) := take_unit "Y" s in
@@ -286,45 +296,45 @@ Record groups := mkGroups {
   g_weeks : option string }.
 
 Definition re1 (s : string) : option groups :=
-  match s with
-  | String "P" r =>
+  match uncons "P" s with
+  | Some r =>
     let '(y, mo, d, r3) := match_date r in
     if at_end r3 then Some (mkGroups y mo d None None None None) else None
-  | _ => None
+  | None => None
   end.
 Definition re2 (s : string) : option groups :=
-  match s with
-  | String "P" r =>
+  match uncons "P" s with
+  | Some r =>
     let '(y, mo, d, r3) := match_date r in
-    match r3 with
-    | String "T" t =>
+    match uncons "T" r3 with
+    | Some t =>
       match match_time t with
       | Some (h, mi, se) => Some (mkGroups y mo d h mi se None)
       | None => None
       end
-    | _ => None
+    | None => None
     end
-  | _ => None
+  | None => None
   end.
 Definition re3 (s : string) : option groups :=
-  match s with
-  | String "P" r =>
+  match uncons "P" s with
+  | Some r =>
     let (ds, r1) := span_digits r in
-    match ds, r1 with
-    | String _ _, String "W" r2 =>
-      if at_end r2 then Some (mkGroups None None None None None None (Some ds)) else None
-    | _, _ => None
-    end
-  | _ => None
+    if str_nonempty ds then
+      match uncons "W" r1 with
+      | Some r2 => if at_end r2 then Some (mkGroups None None None None None None (Some ds)) else None
+      | None => None
+      end
+    else None
+  | None => None
   end.
 
 (* ---------- float(value) for a \d.* group ---------- *)
-Definition comma_to_point (s : string) : string :=
-  (fix go (s : string) : string :=
-     match s with
-     | EmptyString => EmptyString
-     | String c r => String (if Ascii.eqb c "," then "."%char else c) (go r)
-     end) s.
+Fixpoint comma_to_point (s : string) : string :=
+  match s with
+  | EmptyString => EmptyString
+  | String c r => String (if Ascii.eqb c "," then "."%char else c) (comma_to_point r)
+  end.
 (* what float() strips: Py_ISSPACE after the unicode transform *)
 Definition is_ws (c : ascii) : bool :=
   let n := N_of_ascii c in ((9 <=? n)%N && (n <=? 13)%N) || (n =? 32)%N.
@@ -376,17 +386,16 @@ Definition conv_float (s : string) : tres Q :=
   let other := if float_accepts v then TUnmodelled else TValueError in
   let plain (i f : string) := if float_safe i f then TOk (dval i f) else TUnmodelled in
   let (i, r) := span_digits v in
-  match i with
-  | EmptyString => other
-  | _ =>
+  if str_nonempty i then
     match r with
     | EmptyString => plain i EmptyString
-    | String "." fr =>
-      let (f, r2) := span_digits fr in
-      match r2 with EmptyString => plain i f | _ => other end
-    | _ => other
+    | String a fr =>
+      if Ascii.eqb a "." then
+        let (f, r2) := span_digits fr in
+        if str_nonempty r2 then other else plain i f
+      else other
     end
-  end.
+  else other.
 
 (* ---------- the conversion loop of DurationParser.parse ---------- *)
 Definition conv_oint (o : option string) : tres Z :=
@@ -437,34 +446,28 @@ Definition alt_make (y mo d h mi s : string) : tres dur :=
 (* the time of a basic form: exactly hhmmss *)
 Definition alt_time_basic (t : string) : option (string * string * string) :=
   let (ds, r) := span_digits t in
-  match r with
-  | EmptyString => if (slen ds =? 6)%nat then Some (stake 2 ds, stake 2 (sdrop 2 ds), sdrop 4 ds) else None
-  | _ => None
-  end.
+  if str_nonempty r then None
+  else if (slen ds =? 6)%nat then Some (stake 2 ds, stake 2 (sdrop 2 ds), sdrop 4 ds) else None.
 (* the time of an extended form: exactly hh:mm:ss *)
 Definition alt_time_ext (t : string) : option (string * string * string) :=
   let (h, r1) := span_digits t in
-  match r1 with
-  | String ":" t2 =>
+  match uncons ":" r1 with
+  | Some t2 =>
     let (mi, r2) := span_digits t2 in
-    match r2 with
-    | String ":" t3 =>
+    match uncons ":" r2 with
+    | Some t3 =>
       let (s, r3) := span_digits t3 in
-      match r3 with
-      | EmptyString =>
-        if (slen h =? 2)%nat && (slen mi =? 2)%nat && (slen s =? 2)%nat then Some (h, mi, s) else None
-      | _ => None
-      end
-    | _ => None
+      if str_nonempty r3 then None
+      else if (slen h =? 2)%nat && (slen mi =? 2)%nat && (slen s =? 2)%nat then Some (h, mi, s) else None
+    | None => None
     end
-  | _ => None
+  | None => None
   end.
 
-Definition alt_parse (e : string) : tres dur :=
-  let (a, r) := span_digits e in
-  match r with
-  | String "T" t =>
-    (* basic: CCYYMMDD or CCYYDDD *)
+Definition alt_basic (a r : string) : tres dur :=
+  match uncons "T" r with
+  | Some t =>
+    (* CCYYMMDD or CCYYDDD *)
     match alt_time_basic t with
     | Some (h, mi, s) =>
       if (slen a =? 8)%nat then alt_make (stake 4 a) (stake 2 (sdrop 4 a)) (sdrop 6 a) h mi s
@@ -472,69 +475,114 @@ Definition alt_parse (e : string) : tres dur :=
       else TUnmodelled
     | None => TUnmodelled
     end
-  | String "W" r1 =>
-    (* basic week date CCYYWwwD: get_is_week_date() => ISO8601SyntaxError *)
-    let (wd, r2) := span_digits r1 in
-    match r2 with
-    | String "T" t =>
-      match alt_time_basic t with
-      | Some _ => if (slen a =? 4)%nat && (slen wd =? 3)%nat then TSyntax else TUnmodelled
-      | None => TUnmodelled
-      end
-    | _ => TUnmodelled
-    end
-  | String "-" r1 =>
-    if negb (slen a =? 4)%nat then TUnmodelled else
-    match r1 with
-    | String "W" r2 =>
-      (* extended week date CCYY-Www-D *)
-      let (w, r3) := span_digits r2 in
-      match r3 with
-      | String "-" r4 =>
-        let (dd, r5) := span_digits r4 in
-        match r5 with
-        | String "T" t =>
-          match alt_time_ext t with
-          | Some _ => if (slen w =? 2)%nat && (slen dd =? 1)%nat then TSyntax else TUnmodelled
-          | None => TUnmodelled
-          end
-        | _ => TUnmodelled
-        end
-      | _ => TUnmodelled
-      end
-    | _ =>
-      let (b, r2) := span_digits r1 in
-      match r2 with
-      | String "T" t =>
-        (* CCYY-DDD *)
-        match alt_time_ext t with
-        | Some (h, mi, s) => if (slen b =? 3)%nat then alt_make a "0" b h mi s else TUnmodelled
+  | None =>
+    match uncons "W" r with
+    | Some r1 =>
+      (* basic week date CCYYWwwD: get_is_week_date() => ISO8601SyntaxError *)
+      let (wd, r2) := span_digits r1 in
+      match uncons "T" r2 with
+      | Some t =>
+        match alt_time_basic t with
+        | Some _ => if (slen a =? 4)%nat && (slen wd =? 3)%nat then TSyntax else TUnmodelled
         | None => TUnmodelled
         end
-      | String "-" r3 =>
+      | None => TUnmodelled
+      end
+    | None => TUnmodelled
+    end
+  end.
+
+Definition alt_extended (a r1 : string) : tres dur :=
+  (* after CCYY- *)
+  match uncons "W" r1 with
+  | Some r2 =>
+    (* extended week date CCYY-Www-D *)
+    let (w, r3) := span_digits r2 in
+    match uncons "-" r3 with
+    | Some r4 =>
+      let (dd, r5) := span_digits r4 in
+      match uncons "T" r5 with
+      | Some t =>
+        match alt_time_ext t with
+        | Some _ => if (slen w =? 2)%nat && (slen dd =? 1)%nat then TSyntax else TUnmodelled
+        | None => TUnmodelled
+        end
+      | None => TUnmodelled
+      end
+    | None => TUnmodelled
+    end
+  | None =>
+    let (b, r2) := span_digits r1 in
+    match uncons "T" r2 with
+    | Some t =>
+      (* CCYY-DDD *)
+      match alt_time_ext t with
+      | Some (h, mi, s) => if (slen b =? 3)%nat then alt_make a "0" b h mi s else TUnmodelled
+      | None => TUnmodelled
+      end
+    | None =>
+      match uncons "-" r2 with
+      | Some r3 =>
         (* CCYY-MM-DD *)
         let (c, r4) := span_digits r3 in
-        match r4 with
-        | String "T" t =>
+        match uncons "T" r4 with
+        | Some t =>
           match alt_time_ext t with
           | Some (h, mi, s) =>
             if (slen b =? 2)%nat && (slen c =? 2)%nat then alt_make a b c h mi s else TUnmodelled
           | None => TUnmodelled
           end
-        | _ => TUnmodelled
+        | None => TUnmodelled
         end
-      | _ => TUnmodelled
+      | None => TUnmodelled
       end
     end
-  | _ => TUnmodelled
+  end.
+
+Definition alt_forms (e : string) : tres dur :=
+  let (a, r) := span_digits e in
+  match uncons "-" r with
+  | Some r1 => if (slen a =? 4)%nat then alt_extended a r1 else TUnmodelled
+  | None => alt_basic a r
+  end.
+
+(* Sound rejection in the fallback.  Every regex of the time point parser is
+   built from the literal characters and digit classes below (regenerated and
+   checked: EXPECTED_ALT_*_ALPHABET against gen/DurGrammar.v), so a date part
+   holding any other character matches no date regex, and a time part holding
+   any other character matches neither a time nor a zone regex, whichever way
+   get_info splits it: ISO8601SyntaxError.  A newline is left alone (`$` also
+   matches before a final newline).  More than one T makes the two-variable
+   unpacking of split("T") raise a plain ValueError. *)
+Definition EXPECTED_ALT_DATE_ALPHABET : string := "+-0123456789W".
+Definition EXPECTED_ALT_TIME_ALPHABET : string := ",-.0123456789:".
+Definition EXPECTED_ALT_ZONE_ALPHABET : string := "+-0123456789:Z".
+Fixpoint str_mem (c : ascii) (s : string) : bool :=
+  match s with EmptyString => false | String a r => Ascii.eqb a c || str_mem c r end.
+Definition has_foreign (alphabet : string) (s : string) : bool :=
+  negb (str_all (fun c => Ascii.eqb c NL || str_mem c alphabet) s).
+Definition alt_reject (e : string) : tres dur :=
+  match split_on "T" e "" with
+  | [d] => if has_foreign EXPECTED_ALT_DATE_ALPHABET d then TSyntax else TUnmodelled
+  | [d; t] =>
+    if has_foreign EXPECTED_ALT_DATE_ALPHABET d ||
+       has_foreign (EXPECTED_ALT_TIME_ALPHABET ++ EXPECTED_ALT_ZONE_ALPHABET) t
+    then TSyntax else TUnmodelled
+  | _ => TValueError
+  end.
+
+Definition alt_parse (e : string) : tres dur :=
+  match alt_forms e with
+  | TUnmodelled => alt_reject e
+  | r => r
   end.
 
 (* ---------- DurationParser.parse ---------- *)
 Definition dur_parse (expr : string) : tres dur :=
   if negb (str_all is_ascii7 expr) then TUnmodelled else
-  let (sg, e) := match expr with
-                 | String "-" r => (-1, r)
-                 | _ => (1, expr)
+  let (sg, e) := match uncons "-" expr with
+                 | Some r => (-1, r)
+                 | None => (1, expr)
                  end in
   match re1 e with
   | Some g => convert sg g
@@ -545,9 +593,9 @@ Definition dur_parse (expr : string) : tres dur :=
       match re3 e with
       | Some g => convert sg g
       | None =>
-        match e with
-        | String "P" r => if sg =? -1 then TSyntax else alt_parse r
-        | _ => TSyntax
+        match uncons "P" e with
+        | Some r => if sg =? -1 then TSyntax else alt_parse r
+        | None => TSyntax
         end
       end
     end
